@@ -49,8 +49,13 @@ class Lock:
 
 
 def run(cmd, cwd=None, env=None, timeout=None, stdin=None):
-    p = subprocess.run(cmd, cwd=cwd, env=env, timeout=timeout, stdin=stdin,
-                       stdout=subprocess.PIPE, stderr=subprocess.STDOUT, text=True)
+    try:
+        p = subprocess.run(cmd, cwd=cwd, env=env, timeout=timeout, stdin=stdin,
+                           stdout=subprocess.PIPE, stderr=subprocess.STDOUT, text=True)
+    except subprocess.TimeoutExpired as e:
+        # subprocess.run has killed the child; a command that does not finish is reported like one that failed
+        out = e.stdout if isinstance(e.stdout, str) else (e.stdout or b"").decode(errors="replace")
+        return 124, (out or "") + "\n<timed out after %s s>" % timeout
     return p.returncode, p.stdout
 
 
@@ -179,7 +184,10 @@ def shq(s):
 
 def driver_run(trace_path, out_path, timeout=1200):
     with open(trace_path) as fin, open(out_path, "w") as fout:
-        p = subprocess.run([DRIVER], stdin=fin, stdout=fout, stderr=subprocess.PIPE, timeout=timeout)
+        try:
+            p = subprocess.run([DRIVER], stdin=fin, stdout=fout, stderr=subprocess.PIPE, timeout=timeout)
+        except subprocess.TimeoutExpired:
+            return 124, "<driver timed out after %s s>" % timeout
     return p.returncode, p.stderr.decode(errors="replace")
 
 
@@ -239,11 +247,13 @@ def read_trace(path, tid):
     return None, out
 
 
-def gen_and_drive(engine, n, seed, tier, workdir, shards=None, extra=None, timeout=1800):
+def gen_and_drive(engine, n, seed, tier, workdir, shards=None, extra=None, timeout=None):
     """Generate n traces with the harness in parallel shards, replay each shard on the driver.
     Returns (TraceResult, list of (shard trace file))."""
     shards = shards or min(NCPU, max(1, n // 20))
     per = (n + shards - 1) // shards
+    if timeout is None:
+        timeout = 1800 if tier == "quick" else 14400
     files = []
     res = TraceResult()
 
